@@ -132,6 +132,11 @@ class Probe:
         self._hook('cond')
         return True
 
+    def ttpost(self, i, after, time):
+        self.log.append(('ttpost', i, after, time))
+        self._hook('cond')
+        return True
+
     def tpost(self, j, after, time):
         self.log.append(('tpost', j, after, time))
         self._hook('cond')
